@@ -16,6 +16,45 @@ func (P *Prog) lemmaObligations(prop string) []*Obligation {
 	return out
 }
 
+// lemmaObligationsFor: lemmas tagged with the property plus every lemma used (transitively).
+func (P *Prog) lemmaObligationsFor(prop string, used map[string]bool) []*Obligation {
+	want := map[string]bool{}
+	for n, lm := range P.specs.Lemmas {
+		if hasProp(lm.Props, prop) {
+			want[n] = true
+		}
+	}
+	for n := range used {
+		want[n] = true
+	}
+	for changed := true; changed; {
+		changed = false
+		for n := range want {
+			lm := P.specs.Lemmas[n]
+			if lm == nil {
+				continue
+			}
+			for _, u := range lm.Uses {
+				e := u
+				if e.Op == "guarded" {
+					e = e.Args[1]
+				}
+				if !want[e.Name] {
+					want[e.Name] = true
+					changed = true
+				}
+			}
+		}
+	}
+	var out []*Obligation
+	for _, n := range sortedLemmaNames(P.specs.Lemmas) {
+		if want[n] {
+			out = append(out, P.lemmaObls(P.specs.Lemmas[n])...)
+		}
+	}
+	return out
+}
+
 func sortedLemmaNames(m map[string]*Lemma) []string {
 	var ks []string
 	for k := range m {
@@ -32,7 +71,7 @@ func sortedLemmaNames(m map[string]*Lemma) []string {
 }
 
 func (P *Prog) lemmaObls(lm *Lemma) (obls []*Obligation) {
-	x := &Exec{P: P, key: "lemma." + lm.Name, usedExt: map[string]bool{}, inlined: map[string]bool{}}
+	x := &Exec{P: P, key: "lemma." + lm.Name, usedExt: map[string]bool{}, inlined: map[string]bool{}, usedContracts: map[string]bool{}}
 	defer func() {
 		if r := recover(); r != nil {
 			if b, ok := r.(bailout); ok {
